@@ -10,6 +10,7 @@ import random
 from .. import core
 
 PROP = 'C13'
+TECHNIQUE = ('runtime monitoring: differential oracle - generated integer intervals rendered into notations, parsed by the real classes and compared with integer reference predicates (round trips, membership, malformed inputs)')
 LEVEL = 'exploration'
 RULE = ("case = one generated interval (list of ranges given as integers) of type time / date / "
         "date-time (or a weekday set, or one malformed specification) rendered in 4 random "
